@@ -6,10 +6,17 @@ import math
 g123 = lambda g: g in (1, 2, 3)
 g23 = lambda g: g in (2, 3)
 
+def _cog14_ok(p):
+    k = p['geometry'] - 1.0
+    b = (k - 1 - p['alpha'] * k) / (2 + p['alpha'] - 2 * (p['beta'] + 4))
+    return b != k and b / (k - b) > 0
+
+
 DOC_OK = {
     'Noh': lambda p: g123(p['geometry']) and p['u0'] < 0,
     'Noh2': lambda p: g123(p['geometry']),
     'Cog13': lambda p: g123(p['geometry']) and p['gamma'] != 1,
+    'Cog14': lambda p: g123(p['geometry']) and 2 + p['alpha'] - 2 * (p['beta'] + 4) != 0 and _cog14_ok(p),
     'Cog16': lambda p: g23(p['geometry']) and p['geometry'] - 1 != p['b'],
     'Cog18': lambda p: g123(p['geometry']) and p['alpha'] != 0,
     'Cog19': lambda p: g123(p['geometry']) and p['u0'] < 0,
@@ -24,5 +31,5 @@ DOC_OK = {
     'ExplosiveArc': lambda p: p['geometry'] == 1 and 0 < p['r_1'] < p['r_2'] and 0 < p['omega_in'] < math.pi / 2 and p['omega_in'] <= p['omega_out'] <= math.pi / 2
         and p['x_d'] < 0 and p['D_CJ'] > 0 and p['alpha'] >= 0 and p['t_f'] > 0 and p['xnodes'] > 0 and p['ynodes'] > 0,
 }
-for _i in (1, 2, 3, 4, 6, 7, 8, 9, 11, 14, 17):
+for _i in (1, 2, 3, 4, 6, 7, 8, 9, 11, 17):
     DOC_OK['Cog%d' % _i] = lambda p: g123(p['geometry'])
